@@ -205,7 +205,12 @@ impl CartState for MBC1CartState {
 
   fn get_rom_bank(&self) -> usize {
     if self.select_ram {
-      self.rom_bank
+      // the bank number register never selects bank 0, in either mode
+      if self.rom_bank == 0 {
+        1
+      } else {
+        self.rom_bank
+      }
     } else {
       let bank_high = self.ram_bank << 5;
       let mut bank = self.rom_bank;
